@@ -393,6 +393,15 @@ pub fn shape(name: &str) -> Logical {
             let _ = n;
             l
         }
+        // a compressed cluster stored on more than 8 KiB (written in one call past the writer's
+        // buffer) and one extra content pack in its own file
+        "mid" => {
+            let mut l = shape("small");
+            l.name = name.into();
+            l.contents = vec![item(160 * 1024, Entropy::Low, Hint::Yes, 70), item(300, Entropy::High, Hint::No, 71)];
+            l.extra_packs = vec![vec![item(500, Entropy::Low, Hint::Detect, 72)]];
+            l
+        }
         // one compressed cluster whose plain data (12 x 48 KiB) spans several blocks of every codec:
         // a decoder that fails late has already published a prefix
         "wide" => {
